@@ -145,3 +145,43 @@ Example C05_example :
   frames_of 3 (out s) = [] /\
   hdr_bytes (mkFrame 1 3 0 0 0 IOpaque) = [4; 3; 0; 0; 0; 10; 0; 0; 0; 0].
 Proof. vm_compute. repeat split; try reflexivity. eexists. repeat split; reflexivity. Qed.
+
+(* 10. The connection's outbound stream ends with a CloseConnection frame. Once a CloseConnection message has gone
+      out completely — submitted by Shutdown or by a caller's own SendMessage, and whatever the reader answers, a
+      refusal (status other than Success, the connection stays open) included — then for EVERY continuation of the
+      run (further requests, keep-alives, cancellations, Close, ...) no byte is written, no frame is added and no
+      request is given an id. So "the message ids given to requests on one connection are pairwise distinct"
+      (theorem 6) is not endangered by traffic after a refused CloseConnection: there is no transition that makes the
+      write loop resume. A write loop that did resume would have to carry its id counter across the pause; the check
+      family after-close (requests, Shutdown answered with a non-Success status, further requests on the same
+      connection) compares the code with this model and judges the ids it sees on the wire. *)
+Theorem C05_nothing_written_after_close_connection : forall cfg evs evs' o,
+  let s := run cfg evs in
+  In o (out s) -> f_typ (o_frame o) = T_CloseConnection ->
+  let s' := run_from cfg s evs' in
+  out s' = out s /\ wire s' = wire s /\ assigned s' = assigned s.
+Proof. exact nothing_written_after_close_connection. Qed.
+Print Assumptions C05_nothing_written_after_close_connection.
+
+(* non-vacuity: a request answered, Shutdown (caller 2) whose CloseConnection (id 1) the reader refuses with status
+   101; then a third caller submits a request, a keep-alive arrives and the write loop is offered every move it
+   has: the stream still ends with the CloseConnection frame, ids are [0; 1], caller 3 stays queued, the
+   acknowledgement stays in the queue *)
+Definition refused_shutdown : list event :=
+  [ConnStart; ConnFirst ren_ok HBNone; ConnReady; RCheck;
+   Submit 1 (rq 2 5 101); PassGate 1; WDefault; WAccept 1; WWriteHdr; WWritePay;
+   RFrame (mkFrame 1 12 0 3 7 IOpaque) HBNone; RCheck;
+   Submit 2 (mkReq T_CloseConnection 0 0 0 1 true true); PassGate 2; WDefault; WAccept 2; WWriteHdr;
+   RFrame (mkFrame 1 T_CloseConnectionResponse 1 8 55 (IStatus 101)) HBNone; RCheck].
+Definition after_refusal : list event :=
+  [ShutdownClose 2; Submit 3 (rq 20 7 103); PassGate 3; WDefault; WAccept 3; WWriteHdr; WWritePay;
+   RFrame (mkFrame 1 T_KeepAlive 9 0 0 IOpaque) HBNone; RCheck; WTakeAck; WWriteHdr; WSeeDone].
+
+Example C05_refused_shutdown_example :
+  let s := run cfg_today refused_shutdown in
+  let s' := run_from cfg_today s after_refusal in
+  map (fun o => (f_typ (o_frame o), f_id (o_frame o))) (out s) = [(2, 0); (T_CloseConnection, 1)] /\
+  caller_result s 2 = Some (ROk 2%nat (mkFrame 1 T_CloseConnectionResponse 1 8 55 (IStatus 101))) /\
+  closed s' = false /\ out s' = out s /\ ids_assigned s' = [0; 1] /\
+  caller_phase s' 3 = Some (Queued (rq 20 7 103)) /\ ackq s' = [9] /\ writer s' = WParked.
+Proof. vm_compute. repeat split; reflexivity. Qed.
